@@ -75,6 +75,13 @@ TRUSTED = [
     "merges of these steps (which include all source-line interleavings); free-threaded (no-GIL) builds, and "
     "switches inside a single C-level operation, are outside the model. Bytecode-level preemption is exercised "
     "by the sweep (granularity 'opcode') but not proved separately",
+    "thread ownership of the loop: the model's worker always hands its event over (the code's test is thread "
+    "identity, `threading.current_thread() == self.tid`, which a worker thread never passes, whether or not it runs "
+    "an asyncio loop of its own); use of the driver's loop or of a transport from another thread without "
+    "call_soon_threadsafe is judged by the harness at the loop boundary it owns (asyncio's debug-mode rule, "
+    "signature C20:loop-touched-from-worker-thread), not by the model; the loop-side operations run with the "
+    "driver's loop marked as the running loop of their thread, the worker is a plain thread or a thread running "
+    "its own asyncio loop",
     "asyncio: call_soon_threadsafe appends to a FIFO that only the loop thread pops; callbacks run to completion "
     "on the loop thread (the harness pops loop._ready by hand instead of running the selector); timers are observed "
     "at the loop boundary (handles returned by call_later / call_at, attributed to the connection found in the "
@@ -120,9 +127,15 @@ def fresh_object(kind: str, v: Any) -> Any:
 
 
 class FakeTransport:
-    def __init__(self, peer):
+    def __init__(self, peer, foreign=None):
         self.peer = peer
         self.writes: List[bytes] = []
+        self.loop_thread = threading.current_thread()
+        self.foreign = foreign if foreign is not None else []  # uses of loop-owned objects from other threads
+
+    def _thread_check(self, what):
+        if threading.current_thread() is not self.loop_thread:
+            self.foreign.append(f"{what} on the transport of {self.peer}")
 
     def get_extra_info(self, key, default=None):
         return self.peer if key == "peername" else default
@@ -131,9 +144,11 @@ class FakeTransport:
         pass
 
     def write(self, data):
+        self._thread_check("write")
         self.writes.append(bytes(data))
 
     def writelines(self, chunks):
+        self._thread_check("writelines")
         for c in chunks:
             self.writes.append(bytes(c))
 
@@ -192,10 +207,14 @@ class Env:
             for ci, c in enumerate(s.characteristics):
                 if c is self.char:
                     self.pos = (si, ci)
+        self.loop_thread = threading.current_thread()
+        # asyncio's rule (enforced by the loop itself in debug mode, BaseEventLoop._check_thread): every loop
+        # method except call_soon_threadsafe, and every transport method, must be called from the loop's thread
+        self.foreign_calls: List[str] = []
         self.conns: Dict[int, Tuple[Any, FakeTransport]] = {}
         for c in conns:
             proto = HAPServerProtocol(self.loop, self.driver.http_server.connections, self.driver)
-            tr = FakeTransport(("10.0.0.%d" % c, 50000 + c))
+            tr = FakeTransport(("10.0.0.%d" % c, 50000 + c), self.foreign_calls)
             proto.connection_made(tr)
             proto.handler.is_encrypted = True  # a verified session (the cipher itself is C04/C05's subject)
             self.conns[c] = (proto, tr)
@@ -207,14 +226,26 @@ class Env:
         self.flush_cb: Dict[int, Tuple[Any, tuple]] = {}  # what each connection gives its timer to call
         for meth in ("call_later", "call_at"):
             self._wrap_timer_api(meth)
+        orig_soon = self.loop.call_soon
+
+        def call_soon(*args, **kw):
+            if threading.current_thread() is not self.loop_thread:
+                self.foreign_calls.append("loop.call_soon")
+            return orig_soon(*args, **kw)
+
+        self.loop.call_soon = call_soon
 
     def _wrap_timer_api(self, meth: str):
         orig = getattr(self.loop, meth)
 
         def scheduling(*args, **kw):
+            if threading.current_thread() is not self.loop_thread:
+                self.foreign_calls.append(f"loop.{meth}")
             h = orig(*args, **kw)
             owner = self._owner_of_call(args[1] if len(args) > 1 else None)
-            (self.timers[owner] if owner is not None else self.unowned_timers).append(h)
+            lst = self.timers[owner] if owner is not None else self.unowned_timers
+            if not any(h is x for x in lst):  # call_later goes through call_at: one handle, seen twice
+                lst.append(h)
             if owner is not None and len(args) > 1:
                 self.flush_cb[owner] = (args[1], tuple(args[2:]))  # (a cancelled handle forgets its callback)
             return h
@@ -417,8 +448,9 @@ def _worker() -> _Worker:
 
 
 class Exec:
-    def __init__(self, env: Env, switch_l, switch_w, start: str, gran: str):
+    def __init__(self, env: Env, switch_l, switch_w, start: str, gran: str, wkind: str = "plain"):
         self.env = env
+        self.wkind = wkind
         self.gran = gran
         self.switch = {"L": set(switch_l), "W": set(switch_w)}
         self.start = start
@@ -444,6 +476,7 @@ class Exec:
         self.overlap = False           # a controller write overlapped a worker update / undrained hand-off
         self.anomalies: List[str] = []
         self.timer_problem: Optional[str] = None
+        self.op_errors: List[str] = []
         self.timeline: List[Dict[str, Any]] = []
         self.worker_error: Optional[BaseException] = None
         self.worker_outcomes: List[str] = []
@@ -579,6 +612,22 @@ class Exec:
                 raise SchedulerStuck(f"thread {tid} waited 30 s for its turn")
 
     def worker_main(self, updates: List[Any]):
+        if self.wkind == "own-loop":
+            # the worker thread runs an asyncio loop of its own (a sync run() doing asyncio.run(...), the usual
+            # way to use async client libraries) and calls set_value from a coroutine on it
+            wl = asyncio.new_event_loop()
+
+            async def body():
+                self._worker_body(updates)
+
+            try:
+                wl.run_until_complete(body())
+            finally:
+                wl.close()
+        else:
+            self._worker_body(updates)
+
+    def _worker_body(self, updates: List[Any]):
         try:
             with self.cv:
                 self.wait_turn_locked("W")
@@ -591,6 +640,11 @@ class Exec:
                     self.worker_outcomes.append("ok")
                 except ValueError:
                     self.worker_outcomes.append("ValueError")
+                except (SchedulerStuck, TracingIncomplete):
+                    raise
+                except Exception as ex:  # noqa: BLE001  (raised by the code under test, e.g. a container mutated
+                    # by the other thread while this one iterates it)
+                    self.worker_outcomes.append(f"raised {type(ex).__name__}: {ex}")
                 finally:
                     self.sync("W")
                     self.w_in_update = False
@@ -701,7 +755,13 @@ class Exec:
         if op[0] == "write":
             ev["value"] = op[2]
         self.timeline.append(dict(ev, phase="start"))
-        self.do_op(op)
+        try:
+            self.do_op(op)
+        except (SchedulerStuck, TracingIncomplete):
+            raise
+        except Exception as ex:  # noqa: BLE001  (the loop would log it and go on)
+            self.in_write = False
+            self.op_errors.append(f"{op}: {type(ex).__name__}: {ex}")
         self.timeline.append(dict(ev, phase="end"))
         if self.deferred_switch and not self.in_write:
             self.deferred_switch = False
@@ -713,6 +773,9 @@ class Exec:
         keep = sys.gettrace() is _glob_l
         tracing_on()
         _CUR = self
+        # the loop-side operations are callbacks of the driver's loop: in that thread the loop is "running"
+        prev_running = asyncio.events._get_running_loop()
+        asyncio.events._set_running_loop(self.env.loop)
         try:
             for i, op in enumerate(prologue):
                 self.timed_op(i, op)
@@ -742,6 +805,7 @@ class Exec:
             for i, op in enumerate(epilogue):
                 self.timed_op(len(prologue) + len(loop_ops) + i, op)
         finally:
+            asyncio.events._set_running_loop(prev_running)
             _CUR = None
             if not keep:
                 tracing_off()
@@ -797,6 +861,7 @@ _WARM_CASES = [
      "worker": [KINDS[k]["good"][1]], "start": "L", "switchL": [60], "switchW": [5], "gran": g}
     for k in ("int", "float", "bool", "enum") for g in ("line", "opcode")
 ]
+_WARM_CASES += [dict(_WARM_CASES[0], wkind="own-loop"), dict(_WARM_CASES[1], wkind="own-loop")]
 
 
 def warm_up():
@@ -848,7 +913,7 @@ def _run_case_once(case: Dict[str, Any]) -> Dict[str, Any]:
     env = Env(kind, case["init"], conns)
     try:
         ex = Exec(env, case.get("switchL", []), case.get("switchW", []), case.get("start", "L"),
-                  case.get("gran", "line"))
+                  case.get("gran", "line"), case.get("wkind", "plain"))
         updates = [fresh_object(kind, u) for u in case["worker"]]
         epi = epilogue_for(conns)
         ex.run(case["prologue"], case["loop"], updates, epi)
@@ -859,6 +924,19 @@ def _run_case_once(case: Dict[str, Any]) -> Dict[str, Any]:
     missing: List[str] = []
     if ex.worker_outcomes == [("ok" if ok else "ValueError") for ok in valid]:
         missing = _log_missing(ex, case, epi, valid)
+
+    if ex.op_errors:
+        # an operation of the loop raised out of the code under test: report that (the reads it should have
+        # returned are missing, nothing else can be judged or compared)
+        verdicts = [(
+            "C20:loop-operation-raised",
+            f"a loop-side operation raised while a worker-thread update was in flight: {ex.op_errors[:3]}",
+        )] + ref.judge_thread_ownership(env.foreign_calls)
+        return {
+            "line": None, "impl": {"trace": ex.log, "results": ex.results, "delivered": []}, "verdicts": verdicts,
+            "interleaved": True, "yields": dict(ex.yields), "yield_info": ex.yield_info, "sched_part": ex.log,
+            "scale": KINDS[kind]["scale"], "n_ep": len(epi), "overlap": True, "missing": [], "timer_problem": None,
+        }
 
     # ---- oracle (property on the real behaviour) -------------------------------------------------
     scale = KINDS[kind]["scale"]
@@ -898,6 +976,8 @@ def _run_case_once(case: Dict[str, Any]) -> Dict[str, Any]:
                     f"{case['worker']!r}",
                 )
             )
+
+    verdicts = list(verdicts) + ref.judge_thread_ownership(env.foreign_calls)
 
     # A flush mechanism the harness cannot observe must never become an oracle verdict about events.
     timer_problem = ex.timer_problem
@@ -1062,6 +1142,17 @@ def gen_cases(ctx: Ctx) -> List[Tuple[str, Dict[str, Any]]]:
                 cases.append((f"phased/{name}", dict(sc2, switchL=[k])))
             # ... and with the first update only
             cases.append((f"phased1/{name}", dict(sc, worker=sc["worker"][:1])))
+    # (O) the worker thread runs an asyncio loop of its own while it updates (asyncio.run inside a sync run())
+    for kind in (["int"] if ctx.quick else kinds_sweep):
+        for name, sc in scenarios(kind):
+            if name not in ("toHAP-cold", "toHAP-warm", "sub-first", "unsub-other", "lost-other", "drain-flush"):
+                continue
+            sc = dict(sc, wkind="own-loop")
+            nl, nw, solo = solo_counts(sc)
+            for k in sweep_points(solo["yield_info"]["L"]):
+                cases.append((f"ownloop/{name}", dict(sc, switchL=[k])))
+            for k in sweep_points(solo["yield_info"]["W"]):
+                cases.append((f"ownloop-reverse/{name}", dict(sc, start="W", switchW=[k])))
     # (D) bytecode-granularity single preemption of to_HAP / set_value
     for kind in (["int"] if ctx.quick else kinds_sweep):
         for name, sc in scenarios(kind):
@@ -1175,7 +1266,7 @@ def random_case(rng) -> Dict[str, Any]:
     horizon = 1500 if gran == "opcode" else 500
     return base_case(
         kind, init, conns, prologue, ops, worker,
-        start=rng.choice(["L", "W"]), gran=gran,
+        start=rng.choice(["L", "W"]), gran=gran, wkind=rng.choice(["plain", "plain", "plain", "own-loop"]),
         switchL=[i for i in range(horizon) if rng.random() < p],
         switchW=[i for i in range(horizon // 2) if rng.random() < min(0.5, 2 * p)],
     )
@@ -1254,7 +1345,9 @@ def _evaluate(ctx: Ctx, cases: List[Tuple[str, Dict[str, Any]]], correspond: boo
                 except Exception:  # noqa: BLE001
                     pass
                 ctx.fail(sig, desc + f" [stream {stream}; char {case['char']}; loop program {case['loop']}; "
-                         f"worker {case['worker']}; preemption points L{small['switchL']} W{small['switchW']} "
+                         f"worker {case['worker']}"
+                         + (" (its thread runs an asyncio loop of its own)" if case.get("wkind") == "own-loop" else "")
+                         + f"; preemption points L{small['switchL']} W{small['switchW']} "
                          f"({small['gran']} granularity)]", small)
         sp = r["sched_part"]
         st.case([case["char"], case["prologue"], case["loop"], [str(u) for u in case["worker"]], sp],
@@ -1319,7 +1412,9 @@ def run(ctx: Ctx):
         "(single-opcode/, reverse-opcode/), phased programs (phased/: a first update is drained into the "
         "connection's queue with its timer armed, then controller write by the subscriber / by another connection, "
         "unsubscribe+resubscribe, repeated subscribe, timer expiry on a full or emptied queue, direct flush; a "
-        "second update lands at every point of that program; phased1/: no second update), random programs under "
+        "second update lands at every point of that program; phased1/: no second update), the single / reverse "
+        "sweeps with a worker whose thread runs an asyncio loop of its own (ownloop/, ownloop-reverse/), random "
+        "programs under "
         "random schedules (random). A case is non-trivial "
         "if the shared-variable accesses of the two threads actually interleave (neither thread's accesses all "
         "precede the other's); distinct by the global access order."
@@ -1373,7 +1468,8 @@ def replay(ctx: Ctx, r):
 def _print_run(r, res):
     print("char", r["char"], "init", r["init"], "prologue", r["prologue"], "loop", r["loop"], "worker", r["worker"])
     print("schedule: start", r.get("start", "L"), "switchL", r.get("switchL"), "switchW", r.get("switchW"),
-          "granularity", r.get("gran", "line"))
+          "granularity", r.get("gran", "line"), "| worker thread:",
+          "runs its own asyncio loop" if r.get("wkind") == "own-loop" else "plain")
     for t in ("L", "W"):
         for k in r.get("switch" + t, []):
             info = res["yield_info"][t]
